@@ -315,6 +315,7 @@ func waitNone(pred func(g gor) bool) (bool, string) {
 		if hit == nil {
 			return true, ""
 		}
+		slowest = hit.text
 		if time.Now().After(deadline) {
 			return false, hit.text
 		}
@@ -324,6 +325,8 @@ func waitNone(pred func(g gor) bool) (bool, string) {
 		}
 	}
 }
+
+var slowest string
 
 const protoPkg = "github.com/zenon-network/go-zenon/protocol"
 
